@@ -77,20 +77,25 @@ static int decode(MemStream &ms, const std::string &cuts, int fill, unsigned dsr
   std::string canary;
   int n = 0;
   std::vector<size_t> cl = cut_list(cuts, ms.in.size());
+  // the chunks reach the reader through two stream objects in turn (SetReadStream before each chunk, as an application does that wraps every
+  // received network packet in its own stream): a frame goes on across the change of the object (seed C17-21)
+  MemStream alt = ms; MemStream *cur = &ms;
   for (size_t ci = 0; ci < cl.size(); ci++) {
-    ms.avail = cl[ci];
+    MemStream *nxt = (ci % 2 == 1) ? &alt : &ms;
+    if (nxt != cur) { nxt->rp = cur->rp; cur = nxt; rd->SetReadStream(cur); }
+    cur->avail = cl[ci];
     for (;;) {
-      size_t before = ms.rp;
+      size_t before = cur->rp;
       g->m.TPMessage = false;
-      if (ro == 3) { g_pm_res = &res; g_pm_n = &n; rd->SetMsgHandler(pm_handler); rd->ParseMessages(); g_pm_res = 0; if (ms.rp < ms.avail && ms.rp == before) ms.rp = ms.avail; break; }
+      if (ro == 3) { g_pm_res = &res; g_pm_n = &n; rd->SetMsgHandler(pm_handler); rd->ParseMessages(); g_pm_res = 0; if (cur->rp < cur->avail && cur->rp == before) cur->rp = cur->avail; break; }
       bool got = ro == 2 ? rd->GetMessageFromStream(g->m) : rd->GetMessageFromStream(g->m, ro != 0);
       for (size_t k = 0; k < 16; k++) if (g->pre[k] != 0xC3 || g->post[k] != 0xC3) canary = " canary guard-bytes";
       if (g->m.TPMessage) canary = " canary TPMessage";
       if (g->m.DataLen < 0 || g->m.DataLen > tN2kMsg::MaxDataLen) { canary = " canary DataLen"; g->m.DataLen = 0; }
       if (rd->MsgWritePos < 0 || rd->MsgWritePos > MAX_STREAM_MSG_BUF_LEN) canary = " canary MsgWritePos";
       if (got) { n++; res += msg_text(g->m); continue; }
-      if (ms.rp < ms.avail) {                       // only with ro=0: a byte was left for another protocol
-        if (ms.rp == before) { skipped.push_back(ms.in[ms.rp]); ms.rp++; }
+      if (cur->rp < cur->avail) {                       // only with ro=0: a byte was left for another protocol
+        if (cur->rp == before) { skipped.push_back(cur->in[cur->rp]); cur->rp++; }
         continue;
       }
       break;
